@@ -17,7 +17,8 @@ BOUND = "1D with m<=2 bins (collections of <=3 members), 2D shape (2,2); content
 
 def _sub_cfgs():
     return [{"d1": a, "d2": b, "inplace": ip} for a, b in (("int64", "int64"), ("float64", "float64"), ("int64", "float64"), ("float64", "int64"))
-            for ip in (True, False)]
+            for ip in (True, False)] + \
+           [{"d1": "float64", "d2": "float64", "inplace": ip, "free": True} for ip in (True, False)]      # free arithmetics switched on
 
 
 @contract(HB + ".__isub__", props=["C13", "C14", "C18"], name="histogram subtraction")
@@ -33,11 +34,20 @@ class _sub:
 
     def invoke(I, fn, a, cfg):
         name = "__isub__" if cfg.inplace else "__sub__"
+        free = getattr(cfg, "free", False)
         if I is not None:
+            I.setattr(I.load_module("physt.config").d["config"], "free_arithmetics", free)
             return I.call(I.find(HB + "." + name), [a.self, a.other], {})
-        return getattr(type(a.self), name)(a.self, a.other)
+        import physt.config
+        physt.config.config.free_arithmetics = free
+        try:
+            return getattr(type(a.self), name)(a.self, a.other)
+        finally:
+            physt.config.config.free_arithmetics = False
 
     def enough(o):
+        if getattr(o, "_cfg_free", False):
+            return True          # with free arithmetics negative contents are allowed
         return And(*[x >= y for x, y in zip(F(o.self), F(o.other))])
 
     @ensures("difference_with_promoted_dtype_and_invalid_statistics")
@@ -481,4 +491,46 @@ class _merge_minfreq:
             for (ol, orr), x in zip(ob, f0):
                 cov = cov + If(And(l <= ol, orr <= r), x, 0)
             cs.append(f1[k] == cov)
+        return And(*cs)
+
+
+@contract(HB + ".merge_bins", props=["C10", "C12"], name=HB + ".merge_bins[min_frequency, 2D]")
+class _merge_minfreq_2d:
+    """merging by min_frequency along one axis of a NON-SQUARE 2D histogram: the decision is taken on the projection onto
+    that axis; rows are merged, columns stay"""
+    bounded = True
+    bound_note = BOUND + "; merge_bins(min_frequency) 2D: shapes (3,2) and (2,3)"
+
+    def configs():
+        return [{"shape": (3, 2), "axis": 0}, {"shape": (2, 3), "axis": 1}, {"shape": (3, 2), "axis": 1}]
+
+    def inputs(b):
+        c = b.cfg
+        bs = [make_binning(b, f"B{i}", "static", s) for i, s in enumerate(c.shape)]
+        return dict(self=histnd(b, "h", bs, c.shape, dtype="int64"), min_frequency=b.real("thr"), axis=c.axis, inplace=False)
+
+    @ensures("bins_of_that_axis_are_unions_of_adjacent_old_bins_other_axis_untouched_nothing_lost")
+    def _(a, old, result):
+        ax = old.axis
+        other = 1 - ax
+        ob = bins_of(attr(old.self, "_binnings")[ax])
+        nb = bins_of(attr(result, "_binnings")[ax])
+        f0, f1 = aslist(attr(old.self, "_frequencies")), aslist(attr(result, "_frequencies"))
+        e0, e1 = aslist(attr(old.self, "_errors2")), aslist(attr(result, "_errors2"))
+        n_other = shape_of(attr(old.self, "_frequencies"))[other]
+        get = (lambda m, i, j: m[i][j]) if ax == 0 else (lambda m, i, j: m[j][i])
+        cs = [shape_of(attr(result, "_frequencies"))[other] == n_other, shape_of(attr(result, "_frequencies"))[ax] == len(nb),
+              same_binning(attr(old.self, "_binnings")[other], attr(result, "_binnings")[other]),
+              len(nb) >= 1, len(nb) <= len(ob), nb[0][0] == ob[0][0], nb[-1][1] == ob[-1][1],
+              total(attr(result, "_frequencies")) == total(attr(old.self, "_frequencies")),
+              same(attr(result, "_missed"), attr(old.self, "_missed")), same_hist(old.self, a.self), well_formed(result)]
+        for k, (l, r) in enumerate(nb):
+            if k:
+                cs.append(l == nb[k - 1][1])
+            for j in range(n_other):
+                cov, cove = 0, 0
+                for i, (ol, orr) in enumerate(ob):
+                    cov = cov + If(And(l <= ol, orr <= r), get(f0, i, j), 0)
+                    cove = cove + If(And(l <= ol, orr <= r), get(e0, i, j), 0)
+                cs.append(And(get(f1, k, j) == cov, get(e1, k, j) == cove))
         return And(*cs)
